@@ -241,7 +241,8 @@ func (ex *Exec) assumeType(pc Term, v Term, t types.Type) {
 	case SInt:
 		ex.vc.assume(tTrue, inRange(v, t), "type range")
 	case SSlice:
-		ex.vc.assume(tTrue, and(app(SBool, "<=", intLit(0), sOff(v)), app(SBool, "<=", intLit(0), sLen(v)), app(SBool, "<=", sLen(v), sCap(v)), app(SBool, "<=", sCap(v), T("4611686018427387904", SInt))), "slice shape")
+		ex.vc.assume(tTrue, and(app(SBool, "<=", intLit(0), sOff(v)), app(SBool, "<=", intLit(0), sLen(v)), app(SBool, "<=", sLen(v), sCap(v)), app(SBool, "<=", sCap(v), T("4611686018427387904", SInt)),
+			implies(eq(sBase(v), tNull), eq(v, nilSlice))), "slice shape")
 		ex.vc.assume(tTrue, ex.allocatedBefore(sBase(v)), "an incoming slice cannot point into memory allocated later")
 	case SRef:
 		ex.vc.assume(tTrue, ex.allocatedBefore(v), "an incoming pointer cannot point into memory allocated later")
